@@ -235,6 +235,9 @@ type c03Event struct {
 	block           *types.Block
 	seenCommit      *types.Commit
 	partsIncomplete bool
+	ts              time.Time      // sv: the timestamp of the vote being signed
+	obj             *types.Block   // sv: the block object the node holds for the vote's hash at signing time
+	parts           types.PartSetHeader // cm: header of the part set saved with the block
 }
 
 type c03Node struct {
@@ -247,6 +250,8 @@ type c03Node struct {
 	store  cstate.Store
 	probe  *cstate.BlockExecutor // separate executor for harness-side validateBlock queries (own cache)
 	eb     *types.EventBus
+	// sigHook is told about every vote the node's key signs (content and signature bytes)
+	sigHook func(vote *kproto.Vote)
 }
 
 type c03BlockOps struct {
@@ -295,7 +300,7 @@ func (b *c03BlockOps) SaveBlock(block *types.Block, partSet *types.PartSet, seen
 	if !partSet.IsComplete() {
 		panic("BlockOperations can only save complete block part sets")
 	}
-	b.node.events = append(b.node.events, c03Event{kind: "cm", height: block.Height(), round: seenCommit.Round, block: block, seenCommit: seenCommit, bid: seenCommit.BlockID})
+	b.node.events = append(b.node.events, c03Event{kind: "cm", height: block.Height(), round: seenCommit.Round, block: block, seenCommit: seenCommit, bid: seenCommit.BlockID, parts: partSet.Header()})
 	b.height = block.Height()
 }
 func (b *c03BlockOps) LoadBlockPart(height uint64, index int) *types.Part { return nil }
@@ -357,8 +362,22 @@ type c03PV struct {
 
 func (p *c03PV) SignVote(chainID string, vote *kproto.Vote) error {
 	bid, _ := types.BlockIDFromProto(&vote.BlockID)
-	p.node.events = append(p.node.events, c03Event{kind: "sv", typ: int(vote.Type), height: vote.Height, round: vote.Round, bid: *bid})
-	return p.DefaultPrivValidator.SignVote(chainID, vote)
+	// the block object behind the vote, read at the moment of signing (LockedBlock first, as the
+	// code does in doPrevote / enterPrecommit)
+	var obj *types.Block
+	if cs := p.node.cs; cs != nil && !bid.Hash.IsZero() {
+		if cs.LockedBlock.HashesTo(bid.Hash) {
+			obj = cs.LockedBlock
+		} else if cs.ProposalBlock.HashesTo(bid.Hash) {
+			obj = cs.ProposalBlock
+		}
+	}
+	p.node.events = append(p.node.events, c03Event{kind: "sv", typ: int(vote.Type), height: vote.Height, round: vote.Round, bid: *bid, ts: vote.Timestamp, obj: obj})
+	err := p.DefaultPrivValidator.SignVote(chainID, vote)
+	if err == nil && p.node.sigHook != nil {
+		p.node.sigHook(vote)
+	}
+	return err
 }
 func (p *c03PV) SignProposal(chainID string, proposal *kproto.Proposal) error {
 	bid, _ := types.BlockIDFromProto(&proposal.BlockID)
@@ -436,6 +455,22 @@ type c03Block struct {
 	partsID int
 	validAt uint64 // height at which the block is a valid extension of the node's chain (0: never)
 	kind    string
+	content string // Keccak of the block's bytes: blocks with one header hash can differ in their body
+	held    bool   // all parts were given to the node
+	// height at which the node itself signed a non-nil vote for this very object (so its executor
+	// has validated it at that height)
+	votedAt uint64
+}
+
+// c03SigInfo: who signed which canonical vote content (ideal-signature view of a real signature)
+type c03SigInfo struct {
+	id     int
+	signer int // address id of the key
+	typ    int
+	h      uint64
+	r      uint32
+	bid    types.BlockID
+	ts     int64
 }
 
 type c03RecvVote struct {
@@ -456,10 +491,12 @@ type c03Case struct {
 	hashes map[common.Hash]int
 	partsH map[string]int
 	blocks []*c03Block
-	byHash map[common.Hash]*c03Block
+	byHash map[common.Hash][]*c03Block // blocks with that header hash (twins share it)
+	byContent map[string]*c03Block
+	sigReg  map[string]*c03SigInfo
+	tsMode  int // timestamps of the adversary's votes: 0 wall clock, 1 one hour ahead, 2 pinned to genesis, 3 genesis + height ns
 	// oracle state
 	recv        []c03RecvVote
-	held        map[common.Hash]bool
 	signedKey   map[string]string
 	precommits  []c03Event // non-nil precommits signed, this height
 	lastHRS     [3]uint64
@@ -569,6 +606,9 @@ func c03SpecValid(st cstate.LatestBlockState, b *types.Block) bool {
 			if s.Absent() {
 				continue
 			}
+			if s.ValidatorAddress != v.Address { // the median weighs the slot by this address
+				return false
+			}
 			if !types.VerifySignature(v.Address, crypto.Keccak256(lc.VoteSignBytes(st.ChainID, uint32(i))), s.Signature) {
 				return false
 			}
@@ -640,6 +680,10 @@ func (c *c03Case) newBlock(kind string) *c03Block {
 		h.NextValidatorsHash = common.BytesToHash([]byte{5, byte(c.r.Intn(200))})
 	case "time":
 		h.Time = ts.Add(time.Duration(1+c.r.Intn(5)) * time.Second)
+	case "time+1":
+		h.Time = ts.Add(time.Nanosecond)
+	case "time-1":
+		h.Time = ts.Add(-time.Nanosecond)
 	case "proposer":
 		h.ProposerAddress = common.BytesToAddress([]byte{6, byte(c.r.Intn(200))})
 	case "commit":
@@ -663,40 +707,282 @@ func (c *c03Case) newBlock(kind string) *c03Block {
 			commit = cp
 			h.Time = cstate.MedianTime(commit, st.LastValidators)
 		}
+	case "commit-addr", "commit-sig", "commit-size":
+		if height == 1 || len(commit.Signatures) < 2 {
+			kind = "valid"
+			break
+		}
+		cp := types.NewCommit(commit.Height, commit.Round, commit.BlockID, append([]types.CommitSig{}, commit.Signatures...))
+		var present []int
+		for i, s := range cp.Signatures {
+			if !s.Absent() {
+				present = append(present, i)
+			}
+		}
+		if len(present) < 2 {
+			kind = "valid"
+			break
+		}
+		i := present[c.r.Intn(len(present))]
+		j := present[c.r.Intn(len(present))]
+		for j == i {
+			j = present[c.r.Intn(len(present))]
+		}
+		switch kind {
+		case "commit-addr": // slot i names validator j (its signature is still validator i's)
+			cp.Signatures[i].ValidatorAddress = cp.Signatures[j].ValidatorAddress
+		case "commit-sig": // slot i carries validator j's signature
+			cp.Signatures[i].Signature = cp.Signatures[j].Signature
+		case "commit-size":
+			cp.Signatures = append(cp.Signatures, types.NewCommitSigAbsent())
+		}
+		commit = cp
+		h.Time = cstate.MedianTime(commit, st.LastValidators)
+	}
+	if height > 1 && kind == "valid" && !ts.After(st.LastBlockTime) {
+		// the votes of the last commit carry times at or before the last block time: no block
+		// with the prescribed median time is after it
+		kind = "time-stale"
 	}
 	blk := types.NewBlock(h, nil, commit, nil, trie.NewStackTrie(nil))
 	return c.register(blk, kind, []uint32{types.BlockPartSizeBytes, 300, 150}[c.r.Pick(3, 1, 1)], st)
 }
 
+// newTwin builds a block with the header (hence the hash) of orig and another last commit: at the
+// first height the commit's height/round/id are free (the twin is as valid as orig); later, a commit
+// with another round, height or block id over the same signatures (the header only commits to the
+// signatures) does not verify, so the twin is not a valid block although its hash is orig's.
+func (c *c03Case) newTwin(orig *c03Block) *c03Block {
+	st := c.nd.cs.state
+	lc := orig.blk.LastCommit()
+	var commit *types.Commit
+	kind := "twin"
+	if lc == nil || len(lc.Signatures) == 0 {
+		commit = types.NewCommit(0, uint32(1+c.r.Intn(3)), types.BlockID{}, nil)
+		kind = "twin-first"
+	} else {
+		sigs := append([]types.CommitSig{}, lc.Signatures...)
+		switch c.r.Intn(3) {
+		case 0:
+			commit = types.NewCommit(lc.Height, lc.Round+1, lc.BlockID, sigs)
+		case 1:
+			commit = types.NewCommit(lc.Height+1, lc.Round, lc.BlockID, sigs)
+		default:
+			bid := lc.BlockID
+			bid.PartsHeader.Total++
+			commit = types.NewCommit(lc.Height, lc.Round, bid, sigs)
+		}
+	}
+	blk := types.NewBlock(orig.blk.Header(), nil, commit, nil, trie.NewStackTrie(nil))
+	if blk.Hash() != orig.blk.Hash() {
+		c.o.Fail(c.opNo, "harness-twin-hash", "the twin does not have the hash of the original")
+	}
+	if kind == "twin-first" && orig.validAt == 0 {
+		kind = "twin"
+	}
+	return c.register(blk, kind, []uint32{types.BlockPartSizeBytes, 300}[c.r.Pick(2, 1)], st)
+}
+
+// otherEncoding registers the SAME block cut into parts of another size: another parts header for
+// the same bytes (the part size is not fixed by any check of the code).
+func (c *c03Case) otherEncoding(orig *c03Block) *c03Block {
+	size := uint32(300)
+	if orig.parts.Total() > 1 && orig.parts.Total() == orig.blk.MakePartSet(300).Total() {
+		size = 150
+	}
+	ps := orig.blk.MakePartSet(size)
+	if ps.HasHeader(orig.parts.Header()) {
+		ps = orig.blk.MakePartSet(types.BlockPartSizeBytes)
+	}
+	for _, b := range c.byHash[orig.blk.Hash()] {
+		if b.parts.HasHeader(ps.Header()) {
+			return b
+		}
+	}
+	b := &c03Block{blk: orig.blk, parts: ps, kind: "other-part-size", content: orig.content, validAt: orig.validAt}
+	b.hashID = orig.hashID
+	b.partsID = c.pid(ps.Header())
+	c.blocks = append(c.blocks, b)
+	c.byHash[orig.blk.Hash()] = append(c.byHash[orig.blk.Hash()], b)
+	c.o.InOnly(fmt.Sprintf("BLOCK %d %d %d", b.hashID, b.partsID, b.validAt))
+	c.o.Count("block:other-part-size")
+	return b
+}
+
+func c03ContentKey(blk *types.Block) string {
+	pb, err := blk.ToProto()
+	if err != nil {
+		panic(err)
+	}
+	bz, err := pb.Marshal()
+	if err != nil {
+		panic(err)
+	}
+	return string(crypto.Keccak256(bz))
+}
+
+var c03ValidKinds = map[string]bool{"valid": true, "twin-first": true}
+
 // register interns a block, declares it to the model and checks the validity notions against each other.
 func (c *c03Case) register(blk *types.Block, kind string, partSize uint32, st cstate.LatestBlockState) *c03Block {
-	if b, ok := c.byHash[blk.Hash()]; ok {
+	ck := c03ContentKey(blk)
+	if b, ok := c.byContent[ck]; ok {
 		return b
 	}
 	ps := blk.MakePartSet(partSize)
-	b := &c03Block{blk: blk, parts: ps, kind: kind}
+	b := &c03Block{blk: blk, parts: ps, kind: kind, content: ck}
 	b.hashID = c.hid(blk.Hash())
 	b.partsID = c.pid(ps.Header())
 	spec := c03SpecValid(st, blk)
 	probe := cstate.NewBlockExecutor(c.nd.store, log.New(), c03Ev{}, c.nd.bo) // fresh cache
-	impl := probe.ValidateBlock(st, blk) == nil
+	verr := probe.ValidateBlock(st, blk)
+	impl := verr == nil
 	if spec {
 		b.validAt = st.LastBlockHeight + 1
 	}
 	if kind == "own" && !spec {
-		c.o.Count("own-proposal-block-invalid") // createProposalBlock from a stale LastCommit (after a round-0 commit)
+		c.o.Count("own-proposal-block-invalid") // createProposalBlock from a stale LastCommit (after a round-0 commit), or vote times not after the last block time
 	}
-	if kind != "own" && spec != (kind == "valid") {
+	if kind != "own" && kind != "stale" && spec != c03ValidKinds[kind] {
 		c.o.Fail(c.opNo, "harness-block-kind", fmt.Sprintf("kind=%s spec=%v", kind, spec))
 	}
 	if spec != impl {
 		c.o.Fail(c.opNo, "validateBlock-vs-spec", fmt.Sprintf("kind=%s height=%d spec=%v validateBlock=%v", kind, st.LastBlockHeight+1, spec, impl))
 	}
 	c.blocks = append(c.blocks, b)
-	c.byHash[blk.Hash()] = b
+	c.byHash[blk.Hash()] = append(c.byHash[blk.Hash()], b)
+	c.byContent[ck] = b
 	c.o.InOnly(fmt.Sprintf("BLOCK %d %d %d", b.hashID, b.partsID, b.validAt))
+	// the Gallina transcription of validateBlock (C03/Validate.v) on the same block and chain state
+	cl := c03VerrClass(verr, blk)
+	c.o.Op(c.vbLine(st, blk), "vb:"+cl)
+	c.o.Count("validateBlock:" + cl)
 	c.o.Count("block:" + kind)
 	return b
+}
+
+// c03VerrClass maps validateBlock's error to the small enum the model prints.
+func c03VerrClass(err error, blk *types.Block) string {
+	if err == nil {
+		return "ok"
+	}
+	if _, ok := err.(types.ErrNotEnoughVotingPowerSigned); ok {
+		return "commit-power"
+	}
+	if _, ok := err.(types.ErrInvalidCommitHeight); ok {
+		return "commit-height"
+	}
+	if _, ok := err.(types.ErrInvalidCommitSignatures); ok {
+		return "commit-size"
+	}
+	if _, ok := err.(*types.ErrEvidenceOverflow); ok {
+		return "evidence-count"
+	}
+	if err == cstate.ErrLastCommitSig {
+		return "firstcommit"
+	}
+	m := err.Error()
+	switch {
+	case m == "nil LastCommit":
+		if blk.Height() > 1 {
+			return "basic"
+		}
+		return "nilcommit"
+	case strings.HasPrefix(m, "wrong Block.Header.Height"):
+		return "height"
+	case strings.HasPrefix(m, "wrong Block.Header.LastBlockID."):
+		return "lastid"
+	case strings.HasPrefix(m, "wrong Block.Header.AppHash"):
+		return "app"
+	case strings.HasPrefix(m, "wrong Block.Header.ValidatorsHash"):
+		return "vals"
+	case strings.HasPrefix(m, "wrong Block.Header.NextValidatorHash"):
+		return "nextvals"
+	case strings.HasPrefix(m, "Invalid commit -- wrong block id"):
+		return "commit-blockid"
+	case strings.HasPrefix(m, "wrong validator address"):
+		return "commit-addr"
+	case strings.HasPrefix(m, "wrong signature"):
+		return "commit-sig"
+	case strings.Contains(m, "not greater than last block time"):
+		return "time-not-after"
+	case strings.HasPrefix(m, "invalid block time"):
+		return "time-not-median"
+	case strings.Contains(m, "is not equal to genesis time"):
+		return "time-genesis"
+	case strings.Contains(m, "lower than initial height"):
+		return "below-initial"
+	case strings.HasPrefix(m, "block proposer is not a validator"):
+		return "proposer"
+	}
+	return "basic" // Block.ValidateBasic / Commit.ValidateBasic
+}
+
+func c03Nano(t time.Time) int64 {
+	if t.IsZero() {
+		return 0
+	}
+	return t.UnixNano()
+}
+
+// addrID: validator index + 1 for the validators of the run, 0 for the zero address, 99 otherwise
+func (c *c03Case) addrID(a common.Address) int {
+	if a == (common.Address{}) {
+		return 0
+	}
+	if i, v := c.net.vals.GetByAddress(a); v != nil {
+		return int(i) + 1
+	}
+	return 99
+}
+
+func (c *c03Case) bid3(b types.BlockID) string {
+	return fmt.Sprintf("%d %d %d", c.hid(b.Hash), b.PartsHeader.Total, c.hid(b.PartsHeader.Hash))
+}
+
+// vbLine projects (chain state, block) onto the data of C03/Validate.v.
+func (c *c03Case) vbLine(st cstate.LatestBlockState, blk *types.Block) string {
+	maxEv, _ := types.MaxEvidencePerBlock(int64(st.ConsensusParams.Block.MaxBytes))
+	h := blk.Header()
+	l := []string{"VB", fmt.Sprint(st.InitialHeight), fmt.Sprint(st.LastBlockHeight), c.bid3(st.LastBlockID), fmt.Sprint(c03Nano(st.LastBlockTime)),
+		fmt.Sprint(c.hid(st.AppHash)), fmt.Sprint(c.hid(st.Validators.Hash())), fmt.Sprint(c.hid(st.NextValidators.Hash())), fmt.Sprint(maxEv), "|",
+		fmt.Sprint(h.Height), fmt.Sprint(c03Nano(h.Time)), c.bid3(h.LastBlockID), fmt.Sprint(c.hid(h.AppHash)), fmt.Sprint(c.hid(h.ValidatorsHash)),
+		fmt.Sprint(c.hid(h.NextValidatorsHash)), fmt.Sprint(c.addrID(h.ProposerAddress))}
+	lc := blk.LastCommit()
+	lchOK := (lc == nil && h.LastCommitHash.IsZero()) || (lc != nil && h.LastCommitHash.Equal(lc.Hash()))
+	l = append(l, "1", fmt.Sprint(c03b(lchOK)), fmt.Sprint(len(blk.Evidence().Evidence)), "1", "|")
+	if lc == nil {
+		l = append(l, "N")
+		return strings.Join(l, " ")
+	}
+	l = append(l, "C", fmt.Sprint(lc.Height), fmt.Sprint(lc.Round), c.bid3(lc.BlockID), fmt.Sprint(len(lc.Signatures)))
+	for _, s := range lc.Signatures {
+		l = append(l, fmt.Sprint(int(s.BlockIDFlag)), fmt.Sprint(c.addrID(s.ValidatorAddress)), fmt.Sprint(c03Nano(s.Timestamp)))
+		if len(s.Signature) == 0 {
+			l = append(l, "0 1 0 0 0 0 0 0 0 0 0")
+			continue
+		}
+		si := c.sigReg[string(s.Signature)]
+		if si == nil { // bytes nobody signed
+			si = &c03SigInfo{id: len(c.sigReg) + 1000}
+			l = append(l, fmt.Sprintf("%d 0 0 0 0 0 0 0 0 0 0", si.id))
+			continue
+		}
+		l = append(l, fmt.Sprintf("%d 0 %d 1 %d %d %d %s %d", si.id, si.signer, si.typ, si.h, si.r, c.bid3(si.bid), si.ts))
+	}
+	return strings.Join(l, " ")
+}
+
+// regSig records the ideal-signature view of a signature made with validator key `signer`.
+func (c *c03Case) regSig(sig []byte, signer int, v *kproto.Vote) {
+	if _, ok := c.sigReg[string(sig)]; ok {
+		return
+	}
+	bid, err := types.BlockIDFromProto(&v.BlockID)
+	if err != nil {
+		bid = &types.BlockID{}
+	}
+	c.sigReg[string(sig)] = &c03SigInfo{id: len(c.sigReg) + 1, signer: signer + 1, typ: int(v.Type), h: v.Height, r: v.Round, bid: *bid, ts: c03Nano(v.Timestamp)}
 }
 
 func (c *c03Case) blocksAt(height uint64) []*c03Block {
@@ -709,10 +995,31 @@ func (c *c03Case) blocksAt(height uint64) []*c03Block {
 	return l
 }
 
-var c03InvalidKinds = []string{"height+", "height-", "parent", "apphash", "valhash", "nextvalhash", "time", "proposer", "commit"}
+var c03InvalidKinds = []string{"height+", "height-", "parent", "apphash", "valhash", "nextvalhash", "time", "proposer", "commit",
+	"time+1", "time-1", "commit-addr", "commit-sig", "commit-size"}
 
 // someBlock returns a block for the current height: an existing one or a new one.
 func (c *c03Case) someBlock() *c03Block {
+	if h := c.nd.cs.Height; h > 1 && c.r.Chance(1, 14) {
+		// a block of the previous height (valid there, validated by the node there) offered again
+		if l := c.staleBlocks(); len(l) > 0 {
+			c.o.Count("family:stale-block-offered")
+			return l[c.r.Intn(len(l))]
+		}
+	}
+	if c.r.Chance(1, 16) {
+		// a twin (same header hash, other last commit) of a block that is valid at this height
+		var l []*c03Block
+		for _, b := range c.blocks {
+			if b.validAt == c.nd.cs.Height && b.kind != "twin-first" && b.kind != "other-part-size" {
+				l = append(l, b)
+			}
+		}
+		if len(l) > 0 && (c.nd.cs.Height > 1 || c.r.Chance(1, 3)) {
+			c.o.Count("family:twin-offered")
+			return c.newTwin(l[c.r.Intn(len(l))])
+		}
+	}
 	l := c.blocksAt(c.nd.cs.Height)
 	if len(l) > 0 && c.r.Chance(3, 4) {
 		return l[c.r.Intn(len(l))]
@@ -840,9 +1147,45 @@ func (c *c03Case) polkaOther(height uint64, lo, hi uint32, hash common.Hash) boo
 	return false
 }
 
+// heldValid: the node was given a block with that hash / one that is valid at that height
 func (c *c03Case) heldValid(hash common.Hash, height uint64) (held, valid bool) {
-	b := c.byHash[hash]
-	return c.held[hash], b != nil && b.validAt == height && height != 0
+	for _, b := range c.byHash[hash] {
+		if b.held {
+			held = true
+			if b.validAt == height && height != 0 {
+				valid = true
+			}
+		}
+	}
+	return
+}
+
+// objectCheck: the very block object the node held for the hash it voted for (blocks with one
+// header hash may differ in their last commit) must be a valid block of that height, and the
+// vote's time must be after that block's time (BFT time: the next block's median time has to be
+// after this block's).
+func (c *c03Case) objectCheck(e c03Event) {
+	if e.obj == nil {
+		c.o.Fail(c.opNo, "vote-for-block-not-in-hand", fmt.Sprintf("type=%d h=%d r=%d bid=%s: neither LockedBlock nor ProposalBlock hashes to it at signing time", e.typ, e.height, e.round, c.bidS(e.bid)))
+		return
+	}
+	b := c.byContent[c03ContentKey(e.obj)]
+	if b == nil || b.validAt != e.height {
+		k := "?"
+		if b != nil {
+			k = b.kind
+		}
+		c.o.Fail(c.opNo, "vote-for-invalid-block-object", fmt.Sprintf("type=%d h=%d r=%d bid=%s kind=%s: the block in hand is not a valid block of this height (same hash as a valid one: %v)",
+			e.typ, e.height, e.round, c.bidS(e.bid), k, len(c.byHash[e.bid.Hash]) > 1))
+	}
+	if b != nil {
+		b.votedAt = e.height
+	}
+	if !e.ts.After(e.obj.Time()) {
+		c.o.Fail(c.opNo, "vote-time-not-after-block-time", fmt.Sprintf("type=%d h=%d r=%d vote=%d block=%d", e.typ, e.height, e.round, e.ts.UnixNano(), e.obj.Time().UnixNano()))
+	} else if e.obj.Time().After(time.Now().Add(10 * time.Minute)) {
+		c.o.Mark(fmt.Sprintf("vote-time-pushed-by-block-time type=%d", e.typ))
+	}
 }
 
 func (c *c03Case) oracles(evs []c03Event, panicked string) {
@@ -859,6 +1202,7 @@ func (c *c03Case) oracles(evs []c03Event, panicked string) {
 				continue
 			}
 			held, valid := c.heldValid(e.bid.Hash, e.height)
+			c.objectCheck(e)
 			if e.typ == int(kproto.PrecommitType) {
 				if !c.quorum(c.powerFor(int(kproto.PrevoteType), e.height, e.round, c03BidKey(e.bid))) {
 					c.o.Fail(c.opNo, "precommit-without-polka", fmt.Sprintf("h=%d r=%d bid=%s", e.height, e.round, c.bidS(e.bid)))
@@ -896,9 +1240,29 @@ func (c *c03Case) oracles(evs []c03Event, panicked string) {
 			if !c.quorum(c.powerFor(int(kproto.PrecommitType), e.height, e.round, c03BidKey(e.bid))) {
 				c.o.Fail(c.opNo, "commit-without-quorum", fmt.Sprintf("h=%d r=%d bid=%s", e.height, e.round, c.bidS(e.bid)))
 			}
-			b := c.byHash[e.block.Hash()]
+			b := c.byContent[c03ContentKey(e.block)]
 			if b == nil || b.validAt != e.height || !e.block.HashesTo(e.bid.Hash) {
 				c.o.Fail(c.opNo, "commit-invalid-block", fmt.Sprintf("h=%d r=%d bid=%s", e.height, e.round, c.bidS(e.bid)))
+			}
+			if b != nil {
+				// the saved part set must be one the node was given in full, of a valid body with this hash
+				// (of this very body, but for the known same-hash-other-body confusion: the node may lock
+				// body X under the part set of body X' and later save X with the parts of X')
+				ok := false
+				for _, x := range c.byHash[e.block.Hash()] {
+					if x.held && x.validAt == e.height && x.parts.HasHeader(e.parts) {
+						ok = true
+						if x.content != b.content {
+							c.o.Count("commit:block-saved-with-the-parts-of-another-body")
+						}
+					}
+				}
+				if !ok {
+					c.o.Fail(c.opNo, "commit-block-not-held", fmt.Sprintf("h=%d r=%d bid=%s", e.height, e.round, c.bidS(e.bid)))
+				}
+			}
+			if b != nil {
+				b.votedAt = e.height
 			}
 			c.o.Mark(fmt.Sprintf("commit r=%d", e.round))
 			c.seen[e.height] = e.seenCommit
@@ -920,6 +1284,19 @@ func (c *c03Case) proposerAt(height uint64, round uint32) int {
 		return l[round]
 	}
 	return -1
+}
+
+// c03ProposerIdx: proposer index at (height, round) from the validator set alone (as buildProposers)
+func c03ProposerIdx(net *c03Net, h uint64, r uint32) int {
+	vs := net.vals.Copy()
+	if h > 1 {
+		vs.IncrementProposerPriority(int64(h - 1))
+	}
+	if r > 1 {
+		vs.IncrementProposerPriority(int64(r - 1))
+	}
+	idx, _ := net.vals.GetByAddress(vs.GetProposer().Address)
+	return int(idx)
 }
 
 func (c *c03Case) buildProposers() {
@@ -976,7 +1353,7 @@ func (c *c03Case) run(input string, f func() string) {
 		blk := nd.bo.created[c.createdSeen]
 		// validity of an own block refers to the height it was built for
 		b := c.register(blk, "own", types.BlockPartSizeBytes, nd.bo.createS[c.createdSeen])
-		c.held[blk.Hash()] = true
+		b.held = true
 		c.o.InOnly(fmt.Sprintf("CREATE %d %d %d %d", blk.Height(), nd.bo.createR[c.createdSeen], b.hashID, b.partsID))
 	}
 	c.oracles(nd.events, panicked)
@@ -1004,7 +1381,14 @@ func (c *c03Case) run(input string, f func() string) {
 		c.o.Count("panic:" + cl)
 		c.o.Mark("panic:" + cl)
 		if bp := c.byzPower(); 3*bp <= c.net.total {
-			c.o.Fail(c.opNo-1, "panic-with-at-most-one-third-byzantine", fmt.Sprintf("class=%s evident-byzantine-power=%d total=%d", cl, bp, c.net.total))
+			if why := c.sameHashOtherBody(cl); why != "" {
+				// KNOWN FINDING (known_findings.json): the code matches the polka / commit block with the
+				// block in hand by hash alone, votes carry hash + parts header
+				c.o.Fail(c.opNo-1, "halt-same-hash-other-body", fmt.Sprintf("%s panic=%s evident-byzantine-power=%d total=%d", why, cl, bp, c.net.total))
+				c.o.Mark("halt-same-hash-other-body:" + cl)
+			} else {
+				c.o.Fail(c.opNo-1, "panic-with-at-most-one-third-byzantine", fmt.Sprintf("class=%s evident-byzantine-power=%d total=%d", cl, bp, c.net.total))
+			}
 		}
 		if cl == "other" {
 			c.o.Count("panic-text:" + strings.Split(panicked, "\n")[0])
@@ -1019,9 +1403,18 @@ func (c *c03Case) run(input string, f func() string) {
 
 func (c *c03Case) signVoteAs(idx int, typ kproto.SignedMsgType, h uint64, r uint32, bid types.BlockID, mode int) (*types.Vote, bool) {
 	c.voteClock++
+	// wall clock like the node's own votes (BFT time: a later height's median must be after the last block time)
+	ts := time.Now().Round(0).UTC().Add(time.Duration(c.voteClock) * time.Millisecond)
+	switch c.tsMode {
+	case 1: // clocks one hour ahead: the next block's time is in the node's future
+		ts = ts.Add(time.Hour)
+	case 2: // every vote carries the genesis time: the median never gets after the last block time
+		ts = c03Genesis
+	case 3: // the smallest admissible step: one nanosecond per height
+		ts = c03Genesis.Add(time.Duration(h) * time.Nanosecond)
+	}
 	v := &types.Vote{ValidatorAddress: c.net.pvs[idx].GetAddress(), ValidatorIndex: uint32(idx), Height: h, Round: r,
-		// wall clock like the node's own votes (BFT time: a later height's median must be after the last block time)
-		Timestamp: time.Now().Round(0).UTC().Add(time.Duration(c.voteClock) * time.Millisecond), Type: typ, BlockID: bid}
+		Timestamp: ts, Type: typ, BlockID: bid}
 	ok := true
 	signer := idx
 	switch mode {
@@ -1040,6 +1433,7 @@ func (c *c03Case) signVoteAs(idx int, typ kproto.SignedMsgType, h uint64, r uint
 		panic(err)
 	}
 	v.Signature = pv.Signature
+	c.regSig(pv.Signature, signer, pv)
 	if mode == 4 { // content changed after signing
 		v.Timestamp = v.Timestamp.Add(time.Second)
 		ok = false
@@ -1090,11 +1484,61 @@ func (c *c03Case) evidence(typ int, v *types.Vote) {
 		c.byz[idx] = true
 	}
 	if !v.BlockID.IsZero() {
-		b := c.byHash[v.BlockID.Hash]
-		if b == nil || b.validAt != v.Height || !b.parts.HasHeader(v.BlockID.PartsHeader) {
+		good := false
+		for _, b := range c.byHash[v.BlockID.Hash] {
+			if b.validAt == v.Height && b.parts.HasHeader(v.BlockID.PartsHeader) {
+				good = true
+			}
+		}
+		if !good {
 			c.byz[idx] = true
 		}
 	}
+}
+
+// sameHashOtherBody recognises the one halt that is a known defect of the repository: the node
+// holds a body whose header hash is the hash of the +2/3 value (polka of the round for a halt in
+// enterPrecommit, precommits of the commit round for a halt in finalizeCommit / SaveBlock), and
+// ANOTHER body with that hash and another parts header, valid at this height, is in play: the +2/3
+// value names it, or the node's ProposalBlockParts were switched to its header by a polka for it.
+// Anything else stays an ordinary failure.
+func (c *c03Case) sameHashOtherBody(cl string) string {
+	cs := c.nd.cs
+	var maj types.BlockID
+	var ok bool
+	switch cl {
+	case "polka-for-invalid-block":
+		if vs := cs.Votes.Prevotes(cs.Round); vs != nil {
+			maj, ok = vs.TwoThirdsMajority()
+		}
+	case "commit-of-invalid-block", "save-incomplete-parts", "commit-parts-header":
+		if vs := cs.Votes.Precommits(cs.CommitRound); vs != nil {
+			maj, ok = vs.TwoThirdsMajority()
+		}
+	}
+	if !ok || maj.IsZero() {
+		return ""
+	}
+	for _, blk := range []*types.Block{cs.LockedBlock, cs.ProposalBlock} {
+		if blk == nil || blk.Hash() != maj.Hash {
+			continue
+		}
+		held := c.byContent[c03ContentKey(blk)]
+		if held == nil {
+			continue
+		}
+		for _, o := range c.byHash[maj.Hash] {
+			if o == held || o.parts.HasHeader(held.parts.Header()) || o.validAt != cs.Height {
+				continue
+			}
+			// the +2/3 value names the other body, or an earlier polka for the other body made the
+			// node replace its part set by that body's (empty) one while keeping the block in hand
+			if o.parts.HasHeader(maj.PartsHeader) || (cs.ProposalBlockParts != nil && o.parts.HasHeader(cs.ProposalBlockParts.Header())) {
+				return fmt.Sprintf("in-hand=%s(valid=%v) other-body=%s(valid) +2/3-names-other=%v h=%d", held.kind, held.validAt == cs.Height, o.kind, o.parts.HasHeader(maj.PartsHeader), cs.Height)
+			}
+		}
+	}
+	return ""
 }
 
 func (c *c03Case) byzPower() int64 {
@@ -1136,7 +1580,7 @@ func (c *c03Case) opBlock(h uint64, r uint32, b *c03Block, peer int) {
 	in := fmt.Sprintf("K %d %d %d %d", h, r, b.hashID, b.partsID)
 	c.run(in, func() string {
 		if h == c.nd.cs.Height {
-			c.held[b.blk.Hash()] = true
+			b.held = true
 		}
 		pid := p2p.ID("")
 		if peer > 0 {
@@ -1200,7 +1644,7 @@ func (c *c03Case) drainOne() bool {
 				panic("internal block parts of an unknown block")
 			}
 			c.run(fmt.Sprintf("K %d %d %d %d", m.Height, m.Round, blk.hashID, blk.partsID), func() string {
-				c.held[blk.blk.Hash()] = true
+				blk.held = true
 				for _, pm := range parts {
 					if p := c.nd.deliverMsg(pm, ""); p != "" {
 						return p
@@ -1398,6 +1842,204 @@ func (c *c03Case) advTimeout() {
 	c.opTimeout(cs.Height, cs.Round+uint32(c.r.Intn(3)), cstypes.RoundStepType(1+c.r.Intn(8)))
 }
 
+// staleBlocks: blocks that were valid at the previous height (first the ones the node voted for or committed)
+func (c *c03Case) staleBlocks() []*c03Block {
+	h := c.nd.cs.Height
+	var voted, other []*c03Block
+	for _, b := range c.blocks {
+		if b.validAt == h-1 && h > 1 {
+			if b.votedAt == h-1 {
+				voted = append(voted, b)
+			} else {
+				other = append(other, b)
+			}
+		}
+	}
+	if len(voted) > 0 {
+		return voted
+	}
+	return other
+}
+
+func (c *c03Case) drainAll() {
+	for !c.dead && c.drainOne() {
+	}
+}
+
+// skipToRound makes the node enter `target` through +2/3-any prevotes of that round split over
+// three values none of which reaches +2/3 (no polka).  False if the others' power does not suffice.
+func (c *c03Case) skipToRound(h uint64, target uint32) bool {
+	cs := c.nd.cs
+	vals := []types.BlockID{{}, {Hash: common.BytesToHash([]byte{9, 1}), PartsHeader: types.PartSetHeader{Total: 1, Hash: common.BytesToHash([]byte{10, 1})}},
+		{Hash: common.BytesToHash([]byte{9, 2}), PartsHeader: types.PartSetHeader{Total: 1, Hash: common.BytesToHash([]byte{10, 2})}}}
+	sums := make([]int64, 3)
+	k := 0
+	for _, idx := range c.r.Perm(c.net.n) {
+		if idx == c.nd.me || c.dead {
+			continue
+		}
+		// never let one value reach +2/3
+		for try := 0; try < 3 && 3*(sums[k%3]+c.net.powers[idx]) > 2*c.net.total; try++ {
+			k++
+		}
+		if 3*(sums[k%3]+c.net.powers[idx]) > 2*c.net.total {
+			continue
+		}
+		sums[k%3] += c.net.powers[idx]
+		v, ok := c.signVoteAs(idx, kproto.PrevoteType, h, target, vals[k%3], 0)
+		c.opVote(1+c.r.Intn(3), v, ok)
+		k++
+	}
+	c.drainAll()
+	return !c.dead && cs.Height == h && cs.Round == target
+}
+
+// proposeFresh gives the node, in a round in which it has neither a proposal nor prevoted and whose
+// proposer is somebody else, a correctly signed proposal for b and then b itself: the node runs
+// doPrevote on b (validateBlock through its executor's cache) if it is not locked.
+func (c *c03Case) proposeFresh(b *c03Block) bool {
+	cs := c.nd.cs
+	h := cs.Height
+	if c.dead || cs.Step == cstypes.RoundStepCommit {
+		return false
+	}
+	if cs.Proposal != nil || cs.Step > cstypes.RoundStepPropose || c.proposerAt(h, cs.Round) == c.nd.me || c.proposerAt(h, cs.Round) < 0 {
+		target := cs.Round + 1
+		for c.proposerAt(h, target) == c.nd.me && target < c03MaxRounds-4 {
+			target++
+		}
+		if target >= c03MaxRounds-4 || !c.skipToRound(h, target) {
+			return false
+		}
+	}
+	if c.dead || cs.Height != h || cs.Proposal != nil || cs.Step > cstypes.RoundStepPropose {
+		return false
+	}
+	signer := c.proposerAt(h, cs.Round)
+	if signer == c.nd.me || signer < 0 {
+		return false
+	}
+	p := types.NewProposal(h, cs.Round, 0, types.BlockID{Hash: b.blk.Hash(), PartsHeader: b.parts.Header()})
+	pp := p.ToProto()
+	if err := c.net.pvs[signer].SignProposal(c03ChainID, pp); err != nil {
+		panic(err)
+	}
+	p.Signature = pp.Signature
+	r := cs.Round
+	c.opProposal(p, signer, 1)
+	c.opBlock(h, r, b, 1)
+	c.drainAll()
+	return true
+}
+
+// directedSameHash: the two scripted exhibitions of the known finding "halt-same-hash-other-body";
+// everybody but the proposer of the round follows the protocol.
+//   variant 1 (first height): the victim is given body B, the others a second body with B's header
+//     hash — B with an empty last commit of another round, or B cut into parts of another size —
+//     prevote and precommit it;
+//   variant 2 (second height): the victim is given B's header with B's last commit under Round+1
+//     (not a valid block), the others the valid B and prevote it.
+func (c *c03Case) directedSameHash(variant int) {
+	cs := c.nd.cs
+	others := func(typ kproto.SignedMsgType, h uint64, r uint32, b *c03Block) {
+		bid := types.BlockID{Hash: b.blk.Hash(), PartsHeader: b.parts.Header()}
+		for idx := 0; idx < c.net.n && !c.dead; idx++ {
+			if idx == c.nd.me {
+				continue
+			}
+			v, ok := c.signVoteAs(idx, typ, h, r, bid, 0)
+			c.opVote(1, v, ok)
+			c.drainAll()
+		}
+	}
+	propose := func(h uint64, r uint32, b *c03Block) {
+		signer := c.proposerAt(h, r)
+		p := types.NewProposal(h, r, 0, types.BlockID{Hash: b.blk.Hash(), PartsHeader: b.parts.Header()})
+		pp := p.ToProto()
+		if err := c.net.pvs[signer].SignProposal(c03ChainID, pp); err != nil {
+			panic(err)
+		}
+		p.Signature = pp.Signature
+		c.opProposal(p, signer, 1)
+		c.opBlock(h, r, b, 1)
+		c.drainAll()
+	}
+	c.opTimeout(1, 1, cstypes.RoundStepNewHeight)
+	c.drainAll()
+	b1 := c.newBlock("valid")
+	if variant == 1 {
+		var second *c03Block
+		if c.r.Chance(1, 2) {
+			second = c.newTwin(b1)
+		} else {
+			second = c.otherEncoding(b1)
+		}
+		c.o.Count("family:directed-same-hash:first-height:" + second.kind)
+		propose(1, 1, b1)
+		others(kproto.PrevoteType, 1, 1, second)
+		others(kproto.PrecommitType, 1, 1, second)
+		return
+	}
+	propose(1, 1, b1)
+	others(kproto.PrevoteType, 1, 1, b1)
+	others(kproto.PrecommitType, 1, 1, b1)
+	if c.dead || cs.Height != 2 {
+		return
+	}
+	c.declareHeight()
+	c.opTimeout(2, 1, cstypes.RoundStepNewHeight)
+	c.drainAll()
+	b := c.newBlock("valid")
+	tw := c.newTwin(b)
+	c.o.Count("family:directed-same-hash:later-height:" + tw.kind)
+	propose(2, 1, tw)
+	others(kproto.PrevoteType, 2, 1, b)
+}
+
+// advTwinProbe: the node has validated B at this height (it voted for it); in a fresh round it is
+// proposed a twin of B — the header of B with another last commit, hence B's hash — which at
+// heights after the first is NOT a valid block (the commit does not verify).  An executor that
+// recognises validated blocks by their hash alone lets the node prevote (and later precommit and
+// commit) the twin.
+func (c *c03Case) advTwinProbe() {
+	cs := c.nd.cs
+	if cs.LockedBlock != nil || cs.Step == cstypes.RoundStepCommit {
+		return
+	}
+	var l []*c03Block
+	for _, b := range c.blocks {
+		if b.validAt == cs.Height && b.votedAt == cs.Height && b.kind != "twin-first" && b.kind != "other-part-size" {
+			l = append(l, b)
+		}
+	}
+	if len(l) == 0 {
+		return
+	}
+	c.o.Count("family:twin-probe")
+	tw := c.newTwin(l[c.r.Intn(len(l))])
+	if c.proposeFresh(tw) {
+		c.o.Mark(fmt.Sprintf("twin-probe-completed h>1=%v", cs.Height > 1))
+	}
+}
+
+// advStaleProbe: at a new height the node is proposed a block of the previous height that its
+// executor validated there (the committed block or another one it voted for).  The executor's
+// memory of validated blocks must not outlive the height.
+func (c *c03Case) advStaleProbe() {
+	cs := c.nd.cs
+	if cs.Height < 2 || cs.LockedBlock != nil || cs.Step == cstypes.RoundStepCommit {
+		return
+	}
+	l := c.staleBlocks()
+	if len(l) == 0 {
+		return
+	}
+	c.o.Count("family:stale-probe")
+	if c.proposeFresh(l[c.r.Intn(len(l))]) {
+		c.o.Mark("stale-probe-completed")
+	}
+}
+
 // advUnlockProbe: while the node is locked on B, deliver a complete +2/3 prevote set for another
 // valid block C in a round BEFORE the lock round (which must not release the lock), skip to a later
 // round with +2/3-any prevotes split over several values (no polka), and give the node a complete
@@ -1493,6 +2135,14 @@ func (c *c03Case) script(maxOps int) {
 			c.advUnlockProbe()
 			continue
 		}
+		if cs.LockedBlock == nil && cs.Step != cstypes.RoundStepCommit && c.r.Chance(1, 25) {
+			if cs.Height > 1 && c.r.Chance(1, 2) {
+				c.advStaleProbe()
+			} else {
+				c.advTwinProbe()
+			}
+			continue
+		}
 		wProp, wBlock, wCamp, wTime := 8, 8, 30, 14
 		switch cs.Step {
 		case cstypes.RoundStepNewHeight:
@@ -1548,10 +2198,25 @@ func TestVerifC03(t *testing.T) {
 				powers[k] = int64(1 + r.Intn(10))
 			}
 		}
+		directed := 0 // the scripted exhibitions of the known finding: two cases in every forty
+		switch i % 40 {
+		case 7:
+			directed = 1
+		case 27:
+			directed = 2
+		}
+		if directed != 0 {
+			n, powers = 4, []int64{10, 10, 10, 10}
+		}
 		net := c03NewNet(fmt.Sprint(i%7), powers)
 		me := r.Intn(n)
 		if r.Chance(1, 12) {
 			me = -1
+		}
+		if directed != 0 {
+			// the victim proposes neither at (1,1) nor at (2,1)
+			for me = 0; me == c03ProposerIdx(net, 1, 1) || me == c03ProposerIdx(net, 2, 1); me++ {
+			}
 		}
 		cfg := configs.TestConsensusConfig()
 		switch r.Pick(60, 25, 15) {
@@ -1561,9 +2226,19 @@ func TestVerifC03(t *testing.T) {
 			cfg.IsCreateEmptyBlocks = false
 		}
 		cfg.IsSkipTimeoutCommit = r.Chance(1, 4)
+		if directed != 0 {
+			cfg = configs.TestConsensusConfig()
+		}
 		nd := c03NewNode(net, me, cfg)
 		c := &c03Case{o: o, r: r, net: net, nd: nd, hashes: map[common.Hash]int{}, partsH: map[string]int{},
-			seen: map[uint64]*types.Commit{}, byz: map[int]bool{}, firstVote: map[string]string{}, byHash: map[common.Hash]*c03Block{}, held: map[common.Hash]bool{}, signedKey: map[string]string{}}
+			seen: map[uint64]*types.Commit{}, byz: map[int]bool{}, firstVote: map[string]string{}, byHash: map[common.Hash][]*c03Block{}, byContent: map[string]*c03Block{}, sigReg: map[string]*c03SigInfo{}, signedKey: map[string]string{}}
+		c.tsMode = r.Pick(70, 12, 6, 12)
+		if directed != 0 {
+			c.tsMode = 0
+		}
+		if me >= 0 {
+			nd.sigHook = func(v *kproto.Vote) { c.regSig(v.Signature, me, v) }
+		}
 		ms := "-"
 		if me >= 0 {
 			ms = fmt.Sprint(me)
@@ -1576,9 +2251,16 @@ func TestVerifC03(t *testing.T) {
 		o.InOnly(strings.Join(l, " "))
 		c.buildProposers()
 		c.lastHRS = [3]uint64{nd.cs.Height, uint64(nd.cs.Round), uint64(nd.cs.Step)}
+		if directed != 0 {
+			c.directedSameHash(directed)
+			if !c.dead {
+				o.Fail(c.opNo, "harness-directed-same-hash", fmt.Sprintf("variant %d did not end in the halt it scripts", directed))
+			}
+		}
 		c.script(60 + r.Intn(120))
 		o.Count(fmt.Sprintf("final-height:%d", nd.cs.Height))
 		o.Count(fmt.Sprintf("n:%d", n))
+		o.Count(fmt.Sprintf("vote-times:%d", c.tsMode))
 		if c.maxRound >= 3 {
 			o.Count("reached-round>=3")
 		}
